@@ -305,6 +305,9 @@ func (fx *FuncCtx) stepBinOp(st *State, x *ssa.BinOp) {
 		}
 		op := map[token.Token]string{token.ADD: "+", token.SUB: "-", token.MUL: "*"}[x.Op]
 		t := fx.define(x.Name(), "Int", "("+op+" "+a.T+" "+b.T+")")
+		if x.Op != token.MUL {
+			fx.seed(t)
+		}
 		if fx.ct == nil || !fx.ct.Wraps {
 			fx.rangeOblige(st, t, x.Type(), fx.describe(x), x.Pos())
 		}
@@ -347,6 +350,7 @@ func (fx *FuncCtx) stepBinOp(st *State, x *ssa.BinOp) {
 func (fx *FuncCtx) stepIndexAddr(st *State, x *ssa.IndexAddr) {
 	base := fx.val(st, x.X)
 	idx := fx.val(st, x.Index)
+	fx.seed(idx.T)
 	switch bt := x.X.Type().Underlying().(type) {
 	case *types.Slice:
 		ob := fx.oblige(st, "idx", fx.siteName("idx", fx.describe(x)),
@@ -469,7 +473,7 @@ func (fx *FuncCtx) stepSlice(st *State, x *ssa.Slice) {
 
 func (fx *FuncCtx) mapComps(k, v types.Type) (hasName, hasSort, valName, valSort string) {
 	ks, vs := fx.u.sortOf(k), fx.u.sortOf(v)
-	key := sanitize(ks) + "$" + sanitize(vs)
+	key := typeKey(k) + "$" + typeKey(v)
 	return "MH$" + key, "(Array Int (Array " + ks + " Bool))", "MV$" + key, "(Array Int (Array " + ks + " " + vs + "))"
 }
 
